@@ -1160,6 +1160,11 @@ class Sequence:
         returns a tuple of (dmax, seqDeltaMax)
         """
 
+        # If the permutant is requested but only the value has been cached so far,
+        # the search has to be re-run to recover it
+        if returnSeqDeltaMax and self.seqDeltaMax is None:
+          self.dmax = -1
+
         # If this has been computed already, then return it
         if self.dmax != -1 and not returnSeqDeltaMax:
           return self.dmax
